@@ -144,7 +144,7 @@ impl Check for C09 {
     fn workloads(&mut self, tier: Tier, _seed: u64) -> Vec<(String, u64)> {
         let n = self.full.len() as u64;
         let c = self.core.len() as u64;
-        let mut w = vec![("seq1".to_string(), n), ("seq2".to_string(), n * n), ("seq3".to_string(), n * n * n), ("random-long".to_string(), if tier == Tier::Quick { 100_000 } else { 2_000_000 })];
+        let mut w = vec![("seq1".to_string(), n), ("seq2".to_string(), n * n), ("seq3".to_string(), n * n * n), ("random-long".to_string(), if tier == Tier::Quick { 300_000 } else { 8_000_000 })];
         if tier == Tier::Thorough {
             w.push(("core-seq4".to_string(), c * c * c * c));
         }
@@ -152,7 +152,7 @@ impl Check for C09 {
         // up to three entries; and random deeper ones, with a statement after them half of the time
         let e = INLINE_ENTRY_KINDS;
         w.push(("inline-exhaustive".to_string(), e + e * e + e * e * e));
-        w.push(("inline-random".to_string(), if tier == Tier::Quick { 150_000 } else { 3_000_000 }));
+        w.push(("inline-random".to_string(), if tier == Tier::Quick { 300_000 } else { 8_000_000 }));
         w
     }
     fn run(&mut self, ctx: &mut Ctx, workload: &str, index: u64, rng: &mut Rng) {
